@@ -24,7 +24,8 @@ NKeys == atoi(IOEnv.NKEYS)
 KeysT == 1..NKeys
 
 VARIABLES l, A, C,    \* C: configuration of the current behaviour (from its reset line)
-          P         \* the ghost before the latest state-changing line (crash / fault images)
+          P,        \* the ghost before the latest state-changing line (crash / fault images)
+          F         \* C16: [on, g] - g is the ghost the failed call would have produced
 
 -----------------------------------------------------------------------------
 (* recorded state -> Layer B state record                                  *)
@@ -110,9 +111,9 @@ StepHazard(i) ==
     THEN MergeHazard(Pre(i), {r.info.choice[j] : j \in 4..Len(r.info.choice)}, r.op.w)
     ELSE {}
 
-GhostStep(a, i, cfg) ==
+\* the ghost step of line i as if the call had succeeded
+GhostStepForced(a, i, cfg) ==
     LET r == Rec[i] IN
-    IF ~IsOk(r) THEN a ELSE
     CASE r.op.op = "reset"  -> AInit
       [] r.op.op = "write"  -> AWrite(a, WriteEntries(r))
       [] r.op.op = "rotate" -> ARotate(a)
@@ -131,9 +132,17 @@ GhostStep(a, i, cfg) ==
             IF DropRangeNoop(b) THEN a
             ELSE ADropRange(a, {k \in KeysT : InBounds(k, b)}, r.info.s0)
       [] r.op.op = "ingest" ->
-            AIngest(a, {[k |-> r.op.items[j].k, s |-> r.info.g, t |-> r.op.items[j].t,
-                         v |-> r.op.items[j].v] : j \in 1..Len(r.op.items)})
+            \* the global seqno: reported by the harness, or (failed call) the counter before the
+            \* call plus the seqno the flush of pending memtables takes
+            LET g == IF "g" \in DOMAIN r.info THEN r.info.g
+                     ELSE IF ~PreWF(i) THEN r.info.s0
+                     ELSE LET pre == Pre(i) sv == Latest(pre) IN
+                          r.info.s0 + (IF pre.mem[sv.act] # {} \/ sv.sealed # <<>> THEN 1 ELSE 0)
+            IN AIngest(a, {[k |-> r.op.items[j].k, s |-> g, t |-> r.op.items[j].t,
+                            v |-> r.op.items[j].v] : j \in 1..Len(r.op.items)})
       [] OTHER -> a
+
+GhostStep(a, i, cfg) == IF ~IsOk(Rec[i]) THEN a ELSE GhostStepForced(a, i, cfg)
 
 -----------------------------------------------------------------------------
 (* conformance: the Layer B operator applied to the previous recorded state*)
@@ -439,8 +448,17 @@ CheckLine(i, a, cfg, prev) ==
     LET r == Rec[i] IN
     IF r.op.op = "reset" THEN
         /\ (Post(i) = InitState \/ Say("DRIFT", "init", i, DiffFields(Post(i), InitState)))
+    ELSE IF r.rk = "err" /\ cfg.fl # 0 /\ i = cfg.fb + cfg.fl - 1 THEN
+        \* C16: the operation hit the injected I/O fault and returned an error: every read and
+        \* scan (newest and held snapshots) is what it was before, nothing stays hidden, held
+        \* snapshots still resolve
+        /\ (ObsGetOk(r, a)  \/ Say("VIOL", "FAULTREAD", i, r.obs.get))
+        /\ (ObsScanOk(r, a) \/ Say("VIOL", "FAULTREAD", i, r.obs.scan))
+        /\ (r.st.hidden = <<>> \/ Say("VIOL", "FAULTHIDDEN", i, r.st.hidden))
+        /\ (~WellFormed(r.st) \/ PSnapsResolve(Post(i)) \/ Say("VIOL", "SNAPRES", i, r.st.snaps))
     ELSE IF r.ret # "ok" THEN
-        /\ (r.rk = "skip" \/ Say("VIOL", "OPFAIL", i, r.ret))
+        /\ (r.rk = "skip" \/ (r.rk = "panic" /\ cfg.fl # 0 /\ i = cfg.fb + cfg.fl - 1)
+            \/ Say("VIOL", "OPFAIL", i, r.ret))
     ELSE IF r.ro /\ r.op.op = "nop" THEN TRUE
     ELSE IF r.ro /\ r.op.op = "crashimg" THEN
         /\ (CrashOk(r, prev, a) \/ Say("VIOL", "CRASH", i, r.info))
@@ -457,18 +475,35 @@ CheckLine(i, a, cfg, prev) ==
        ELSE IF r.op.op # "reset" /\ ~PreWF(i) THEN TRUE
        ELSE StateChecks(i, a, cfg)
 
-CfgOf(r) == [sep |-> [on |-> r.op.blob, big |-> Range(r.op.big)], rules |-> r.op.filter]
-Init == l = 0 /\ A = AInit /\ C = [sep |-> NoSep, rules |-> <<>>] /\ P = AInit
+\* fl: line (within the behaviour, reset = 1) at which an I/O fault was injected (C16), fb: the
+\* trace line of the behaviour's reset
+CfgOf(r, at) == [sep |-> [on |-> r.op.blob, big |-> Range(r.op.big)], rules |-> r.op.filter,
+                 fl |-> r.op.fault_line, fb |-> at]
+Init == l = 0 /\ A = AInit /\ C = [sep |-> NoSep, rules |-> <<>>, fl |-> 0, fb |-> 0] /\ P = AInit /\ F = [on |-> FALSE]
 
 Next ==
     /\ l < Len(Rec)
     /\ l' = l + 1
-    /\ C' = IF Rec[l + 1].op.op = "reset" THEN CfgOf(Rec[l + 1]) ELSE C
-    /\ A' = GhostStep(A, l + 1, C')
+    /\ C' = IF Rec[l + 1].op.op = "reset" THEN CfgOf(Rec[l + 1], l + 1) ELSE C
+    /\ LET r == Rec[l + 1]
+           faultLine == C'.fl # 0 /\ l + 1 = C'.fb + C'.fl - 1 /\ r.rk = "err" /\ PreWF(l + 1)
+           \* C16: a reopen right after the failed call (only snapshot releases in between) may
+           \* find the state before or after it; the ghost follows what was found
+           img == IF r.rk = "ok" /\ r.op.op = "reopen" /\ F.on
+                  THEN [info |-> [gets |-> (CHOOSE g \in Range(r.obs.get) : g.S = Top).v,
+                                  scan |-> (CHOOSE g \in Range(r.obs.scan) : g.S = Top).r]]
+                  ELSE [info |-> [gets |-> <<>>, scan |-> <<>>]]
+           fits(g) == ImageMatches(img, g)
+                      /\ (~WellFormed(r.st) \/ PNoInvention(Post(l + 1), AReopen(g)))
+           useAfter == r.rk = "ok" /\ r.op.op = "reopen" /\ F.on /\ ~fits(A) /\ fits(F.g)
+       IN /\ A' = IF useAfter THEN AReopen(F.g) ELSE GhostStep(A, l + 1, C')
+          /\ F' = IF faultLine THEN [on |-> TRUE, g |-> GhostStepForced(A, l + 1, C')]
+                  ELSE IF r.op.op \in {"snap", "release", "scan"} \/ r.rk # "ok" THEN F
+                  ELSE [on |-> FALSE]
     /\ P' = IF Rec[l + 1].ro THEN P ELSE A
     /\ CheckLine(l + 1, A', C', P')
 
-Spec == Init /\ [][Next]_<<l, A, C, P>>
+Spec == Init /\ [][Next]_<<l, A, C, P, F>>
 
 Accepted ==
     \/ TLCGet("stats").diameter - 1 = Len(Rec)
